@@ -38,7 +38,7 @@ EXHAUSTIVE = {"quick": False, "thorough": False}
 ALLOWED_AXIOMS = ["FunctionalExtensionality.functional_extensionality_dep"]   # named in TRUSTED_BASE
 STR_KEYS = ["a", "b", "ab", "n", "m"]
 U = sorted(["a", "b", "ab", "n", "m", "La", "sa", "sb", "za", "ba"])
-VALUES = [1, 5, -3, "x", "hello", b"raw", None, 0, True]
+VALUES = [1, 5, -3, "x", "hello", b"raw", None, 0, True, "123", "-7", b"42", "", False]      # numeric-looking text and bytes, empty and falsy values
 DEFAULT = "<default>"
 logging.getLogger("cashews.backends.redis.client").disabled = True
 logging.getLogger("cashews.backends.redis.client_side").disabled = True
@@ -67,7 +67,7 @@ def _rand_cmd(rng):
     if r < 0.91: return ["set_remove", rng.choice(["sa", "sb"]), rng.sample(["x", "y", "z"], rng.randint(1, 2))]
     if r < 0.93: return ["set_pop", rng.choice(["sa", "sb"]), rng.choice([1, 2, 100])]
     if r < 0.945: return ["get_bits", "ba", rng.choice([1, 2, 3, 4]), [rng.randint(0, 9) for _ in range(rng.randint(0, 3))]]
-    if r < 0.96: return ["incr_bits", "ba", rng.choice([1, 2, 3, 4]), [rng.randint(0, 9) for _ in range(rng.randint(0, 3))], rng.choice([1, 1, 2, 7])]
+    if r < 0.96: return ["incr_bits", "ba", rng.choice([1, 2, 3, 4]), [rng.randint(0, 9) for _ in range(rng.randint(0, 3))], rng.choice([1, 1, 2, 7, -1, -3, 0])]
     if r < 0.985: return ["slice_incr", "za", rng.randint(0, 6), rng.choice([6, 6, 7, 9, 14]), rng.choice([1, 2, 3, 4]), rng.choice([0, 1.0, 2.5])]
     if r < 0.99: return ["count"]
     if r < 0.995: return ["clear"]
